@@ -7,6 +7,7 @@ import QKV.Props.C16
 import QKV.Props.C17
 import QKV.Model.LayerTypes
 import QKV.Model.Estimator
+import QKV.Lemmas.Estimator
 namespace QKV
 open QKV.Props.C16 QKV.Props.C17
 
@@ -149,5 +150,127 @@ theorem adjustMultiplier_wffx {m : QRec} (hm : WFfx m) {mx mn : ℤ} (h : mn ≤
   refine ⟨⟨hm.nf, hm.np, ?_⟩, ?_, rfl, rfl⟩
   · simp only [adjustMultiplier, magBits] at *; omega
   · simp only [adjustMultiplier]; ring
+
+/-! ### alias class names: the type rules read a weight record's NAME only through the three
+    substring tests `"binary" in name`, `"ternary" in name`, `"po2" in name` -/
+
+theorem makeMultiplier_rename (w x : QRec) (n : QName)
+    (hb : n.hasBinary = w.name.hasBinary) (ht : n.hasTernary = w.name.hasTernary)
+    (hp : n.hasPo2 = w.name.hasPo2) :
+    makeMultiplier { w with name := n } x = makeMultiplier w x := by
+  unfold makeMultiplier
+  show (match mulTable w.mode x.mode with
+    | some (impl, t) => some (impl, mkImpl impl { w with name := n } x t.toRec)
+    | none => none) = _
+  cases hm : mulTable w.mode x.mode with
+  | none => rfl
+  | some p =>
+    obtain ⟨impl, t⟩ := p
+    cases impl
+    case shifter =>
+      by_cases h1 : w.mode = 1 <;> simp [mkImpl, mkShifter, h1, getExp, po2Half, po2MaxExpRaw]
+    all_goals
+      simp only [mkImpl, mkFixedMul, mkMux, mkAnd, mkXor, mkAdder, mkFloatMul, hb, ht, hp]
+
+/-- a 0/1 weight record (`binary(use_01=True)`, `bernoulli`) only ever meets the AndGate or the
+    floating-point multiplier, which read the weight's name through `"po2" in name` alone -/
+theorem mulTable_mode4 (m : ℕ) (impl : MulImpl) (t : OutTemplate)
+    (h : mulTable 4 m = some (impl, t)) : impl = .andGate ∨ impl = .floatMul := by
+  match m, h with
+  | 0, h | 1, h | 2, h | 3, h | 4, h => simp [mulTable] at h; exact Or.inl h.1.symm
+  | 5, h => simp [mulTable] at h; exact Or.inr h.1.symm
+  | (k + 6), h => simp [mulTable] at h
+
+theorem makeMultiplier_rename_mode4 (w x : QRec) (n : QName) (hm : w.mode = 4)
+    (hp : n.hasPo2 = w.name.hasPo2) :
+    makeMultiplier { w with name := n } x = makeMultiplier w x := by
+  unfold makeMultiplier
+  show (match mulTable w.mode x.mode with
+    | some (impl, t) => some (impl, mkImpl impl { w with name := n } x t.toRec)
+    | none => none) = _
+  cases hmt : mulTable w.mode x.mode with
+  | none => rfl
+  | some p =>
+    obtain ⟨impl, t⟩ := p
+    rw [hm] at hmt
+    rcases mulTable_mode4 _ _ _ hmt with rfl | rfl <;>
+      simp only [mkImpl, mkAnd, mkFloatMul, hp]
+
+/-- the records of one layer depend on the weight record through `makeMultiplier` only -/
+theorem layerTypes_congr_weight (kind : LayerKind) (x w w' : QRec) (b : Option QRec)
+    (shape : List ℕ) (ap : Option (ℤ × ℤ)) (h : makeMultiplier w' x = makeMultiplier w x) :
+    layerTypes kind x w' b shape ap =
+      (layerTypes kind x w b shape ap).map fun lt => { lt with weight := w' } := by
+  unfold layerTypes
+  rw [h]
+  cases makeMultiplier w x with
+  | none => rfl
+  | some p =>
+    obtain ⟨impl, m⟩ := p
+    simp only
+    cases accFor kind m b shape with
+    | none => rfl
+    | some q =>
+      obtain ⟨kacc, acc⟩ := q
+      simp only
+      cases ap with
+      | none => rfl
+      | some s =>
+        obtain ⟨mx, mn⟩ := s
+        simp only
+        cases (accFor kind (adjustMultiplier m mx mn) b shape) <;> rfl
+
+/-! ### the distinct constants counted by `update_inference_values` -/
+
+theorem mem_distinctVals (l : List ℚ) (v : ℚ) : v ∈ distinctVals l ↔ v ∈ l := by
+  induction l with
+  | nil => simp [distinctVals]
+  | cons a l ih =>
+    simp only [distinctVals]
+    split
+    · rename_i hc
+      have ha : a ∈ distinctVals l := by simpa using hc
+      constructor
+      · intro h; exact List.mem_cons_of_mem _ (ih.1 h)
+      · intro h
+        rcases List.mem_cons.1 h with rfl | h
+        · exact ha
+        · exact ih.2 h
+    · simp only [List.mem_cons, ih]
+
+theorem nodup_distinctVals (l : List ℚ) : (distinctVals l).Nodup := by
+  induction l with
+  | nil => simp [distinctVals]
+  | cons a l ih =>
+    simp only [distinctVals]
+    split
+    · exact ih
+    · rename_i hc
+      have ha : a ∉ distinctVals l := by simpa using hc
+      exact List.nodup_cons.2 ⟨ha, ih⟩
+
+theorem length_distinctVals_le (l : List ℚ) : (distinctVals l).length ≤ l.length := by
+  induction l with
+  | nil => simp [distinctVals]
+  | cons a l ih =>
+    simp only [distinctVals]
+    split <;> simp only [List.length_cons] <;> omega
+
+theorem distinctVals_pos {l : List ℚ} (h : l ≠ []) : 0 < (distinctVals l).length := by
+  cases l with
+  | nil => exact absurd rfl h
+  | cons a l =>
+    have : a ∈ distinctVals (a :: l) := (mem_distinctVals _ _).2 (List.mem_cons_self ..)
+    exact List.length_pos_of_mem this
+
+/-! ### capping the exponents of a po2 record -/
+
+theorem le_ceilLog2Rat_of_pow2_le {e : ℤ} {m : ℚ} (hm : 0 < m) (h : pow2 e ≤ m) :
+    e ≤ ceilLog2Rat m := by
+  by_contra hc
+  have hlt : ceilLog2Rat m < e := not_le.1 hc
+  have := pow2_lt_pow2 hlt
+  have := le_pow2_ceilLog2Rat hm
+  linarith
 
 end QKV
